@@ -307,43 +307,23 @@ static inline TSNode ts_node__next_sibling(TSNode self, bool include_anonymous) 
   return ts_node__null();
 }
 
-static inline TSNode ts_node__first_child_for_byte(
+static TSNode ts_node__first_child_for_byte(
   TSNode self,
   uint32_t goal,
   bool include_anonymous
 ) {
-  TSNode node = self;
-  bool did_descend = true;
-
-  NodeChildIterator last_iterator;
-  bool has_last_iterator = false;
-
-  while (did_descend) {
-    did_descend = false;
-
-    TSNode child;
-    NodeChildIterator iterator = ts_node_iterate_children(&node);
-  loop:
-    while (ts_node_child_iterator_next(&iterator, &child)) {
-      if (ts_node_end_byte(child) > goal) {
-        if (ts_node__is_relevant(child, include_anonymous)) {
-          return child;
-        } else if (ts_node_child_count(child) > 0) {
-          if (iterator.child_index < ts_subtree_child_count(ts_node__subtree(child))) {
-            last_iterator = iterator;
-            has_last_iterator = true;
-          }
-          did_descend = true;
-          node = child;
-          break;
-        }
+  TSNode child;
+  NodeChildIterator iterator = ts_node_iterate_children(&self);
+  while (ts_node_child_iterator_next(&iterator, &child)) {
+    if (ts_node_end_byte(child) > goal) {
+      if (ts_node__is_relevant(child, include_anonymous)) {
+        return child;
+      } else if (ts_node_child_count(child) > 0) {
+        // Look inside the hidden node; if nothing in it qualifies, carry on
+        // with the siblings that follow it, at every level of nesting.
+        TSNode result = ts_node__first_child_for_byte(child, goal, include_anonymous);
+        if (!ts_node_is_null(result)) return result;
       }
-    }
-
-    if (!did_descend && has_last_iterator) {
-      iterator = last_iterator;
-      has_last_iterator = false;
-      goto loop;
     }
   }
 
